@@ -7,7 +7,10 @@
 set -u
 id=$1; prop=$2; src=$3; shift 3; others="$@"
 export GOFLAGS=-mod=mod GOPROXY=off GOSUMDB=off
-cd /verif
+# VERIF_ROOT: the copy of /verif whose checks are run (default /verif); EVAL_REPO: the tree the patch is applied to for the
+# checks (default /repo; a scratch worktree of /repo lets an evaluation run while /verif is being worked on)
+VR=${VERIF_ROOT:-/verif}; RP=${EVAL_REPO:-/repo}
+cd $VR
 wt=/tmp/confirm/$id
 res() { echo "$1=$2" >> /tmp/confirm/$id.res; }
 if [ -n "${SKIP_CONFIRM:-}" ] && [ -f seeded/$id/meta.json ]; then
@@ -16,7 +19,7 @@ if [ -n "${SKIP_CONFIRM:-}" ] && [ -f seeded/$id/meta.json ]; then
 import json
 m=json.load(open('seeded/$id/meta.json'))
 open('/tmp/confirm/$id.res','w').write(''.join(f'{k}={v}\n' for k,v in m['confirmation'].items() if not k.startswith('check_')))"
-  src=/verif/seeded/$id
+  src=$VR/seeded/$id
 else
 rm -rf $wt; git -C /repo worktree prune; git -C /repo worktree add -q --detach $wt HEAD || exit 2
 res() { echo "$1=$2" >> /tmp/confirm/$id.res; }
@@ -38,11 +41,11 @@ cp $src/demo_test.go $wt/zz_demo_test.go
 git -C /repo worktree remove --force $wt
 fi
 # ---- run the checks against it
-if ! git -C /repo diff --quiet; then echo "/repo dirty"; exit 2; fi
+if ! git -C $RP diff --quiet; then echo "$RP dirty"; exit 2; fi
 rm -rf build/evidence.keep && cp -r evidence build/evidence.keep
-git -C /repo apply $src/patch.diff
+git -C $RP apply $src/patch.diff
 for p in $prop $others; do
-  out=$(./check $p 2>&1)
+  out=$(VERIF_REPO=$RP ./check $p 2>&1)
   echo "$out" | grep -E "^VIOLATION|^KNOWN|^$p:" | cut -c1-250 > /tmp/confirm/$id.check_$p.txt
   n=$(grep -c "^VIOLATION" /tmp/confirm/$id.check_$p.txt); c=$(grep "^VIOLATION" /tmp/confirm/$id.check_$p.txt | grep -vc "no-failing-input-found")
   res check_$p "violations=$n concrete=$c"
@@ -56,10 +59,10 @@ def short(v,n=0):
     return v
 json.dump(short(d),open('seeded/$id/first_violation_replay.json','w'),indent=1)"; fi
 done
-git -C /repo checkout -- .
+git -C $RP checkout -- .
 rm -rf evidence && cp -r build/evidence.keep evidence
 mkdir -p seeded/$id
-[ "$src" != "/verif/seeded/$id" ] && { cp $src/patch.diff seeded/$id/patch.diff; cp $src/demo_test.go seeded/$id/demo_test.go; cp $src/notes.md seeded/$id/notes.md 2>/dev/null; }
+[ "$src" != "$VR/seeded/$id" ] && { cp $src/patch.diff seeded/$id/patch.diff; cp $src/demo_test.go seeded/$id/demo_test.go; cp $src/notes.md seeded/$id/notes.md 2>/dev/null; }
 python3 - <<PY
 import json
 r=dict(l.strip().split('=',1) for l in open('/tmp/confirm/$id.res'))
@@ -67,6 +70,6 @@ meta={'seed_id':'$id','property':'$prop','source':'independent sub-agent given o
       'confirmed': r.get('applies')=='yes' and r.get('builds')=='yes' and r.get('suite_pass_fail','').startswith('207 0') and r.get('demo_with_patch')=='FAIL' and r.get('demo_without_patch')=='PASS',
       'what_was_run':'lib/seed_eval.sh: scratch worktree (git apply, go build, full suite, TestDemo with and without the patch), then patch applied to /repo working tree, ./check run, tree restored',
       'checks':{k[6:]:v for k,v in r.items() if k.startswith('check_')}}
-json.dump(meta,open('/verif/seeded/$id/meta.json','w'),indent=1)
+json.dump(meta,open('$VR/seeded/$id/meta.json','w'),indent=1)
 print(json.dumps(meta,indent=1))
 PY
